@@ -239,6 +239,62 @@ def c10_documents(run):
                 kind, r = outcome(E, v)
                 if kind == "error":
                     acc.fail(key, f"{type(r).__name__} escaped: {str(r)[:120]}")
+        # unknown keywords whose names collide with Python-level parameter names, next to every schema shape (unknown keywords
+        # are metaschema-valid and must be ignored, not forwarded)
+        from statham.schema.exceptions import SchemaParseError as _SPE
+        for base in [{}, {"type": "string"}, {"type": "object", "title": "T"}, {"type": "array"}, {"anyOf": [{"type": "string"}, {"type": "null"}]}, {"allOf": [{}]}, {"not": {}},
+                     {"type": ["string", "null"]}, {"type": "integer"}, {"type": "number"}, {"type": "null"}, {"type": "boolean"}, {"type": "array", "items": [{}]}]:
+            for kw in ("self", "cls", "elements", "args", "kwargs", "name", "value", "property_", "element", "mcs", "bases", "classdict", "source", "additional", "__init__", "__class__"):
+                for val in (1, "x", [1], {"a": 1}, None, True):
+                    S = {**copy.deepcopy(base), kw: val}
+                    key = f"unknown keyword {kw!r}={val!r} next to {jkey(base)}"
+                    acc.case(key)
+                    try:
+                        E = parse_element(S)
+                    except _SPE:
+                        continue
+                    except Exception as ex:
+                        acc.fail(key, f"parse_element raised {type(ex).__name__}: {str(ex)[:100]}")
+                        continue
+                    for v in ("x", 1, None, [1], {"a": 1}):
+                        kind, r = outcome(E, v)
+                        if kind == "error":
+                            acc.fail(key + f" <- {v!r}", f"{type(r).__name__} escaped: {str(r)[:120]}")
+        # object schemas that cannot be given a class (no title): the refusal itself must not fail on unprintable keyword values
+        for S in [{"type": "object", "maximum": big}, {"type": "object", "properties": {"a": {"const": big}}}, {"type": "object", "default": {"a": big}},
+                  {"type": "object", "enum": [big]}, {"type": ["object", "null"], "const": big}, {"items": {"type": "object", "minimum": -big}}]:
+            key = f"untitled object schema with a 5001-digit literal: {{{', '.join(repr(k) + ': ...' for k in S)}}}"
+            acc.case(key)
+            try:
+                parse_element(copy.deepcopy(S))
+            except _SPE:
+                pass
+            except Exception as ex:
+                acc.fail(key, f"parse_element raised {type(ex).__name__}: {str(ex)[:100]}")
+        # property names that are attributes of every Python instance
+        for n in ("__dict__", "__weakref__", "__module__", "__doc__", "__class__", "__slots__", "__annotations__", "__init__", "__new__", "__getattribute__", "__setattr__", "__eq__", "__hash__",
+                  "__repr__", "__getitem__", "_dict", "__properties__", "properties", "default", "validators", "additionalProperties", "inline", "description", "mro", "__mro__", "__name__", "__qualname__"):
+            for sub in ({}, {"type": "string"}, {"type": "object", "title": "In"}):
+                for req in (True, False):
+                    S = {"type": "object", "title": "T", "properties": {n: sub}, **({"required": [n]} if req else {})}
+                    for v in ({n: "x"}, {n: {"a": 1}}, {n: {}}, {n: 1}, {n: None}, {n: [1]}, {}, {"other": 1}):
+                        key = f"property named {n!r}: {jkey(sub)} required={req} <- {jkey(v)}"
+                        acc.case(key)
+                        try:
+                            E = parse_element(copy.deepcopy(S))
+                        except _SPE:
+                            continue
+                        except Exception as ex:
+                            acc.fail(key, f"parse_element raised {type(ex).__name__}: {str(ex)[:100]}")
+                            continue
+                        kind, r = outcome(E, copy.deepcopy(v))
+                        if kind == "error":
+                            acc.fail(key, f"{type(r).__name__} escaped: {str(r)[:120]}")
+                        elif kind == "ok":
+                            try:
+                                repr(r), r == r
+                            except Exception as ex:
+                                acc.fail(key, f"built instance unusable: {type(ex).__name__}: {str(ex)[:100]}")
         nested = 1
         for _ in range(200):
             nested = [nested]
